@@ -88,6 +88,45 @@ SEEDS = {
         "a protocol version other than 4, a tolerated failure at or before a counter-clear boundary, and a run reaching the boundary"),
     "C20b-raw-method-on-owner-loop": ("C20", "__getattr__ returns the raw bound method when looked up on the owner's loop",
         "the attribute looked up on the owner's loop and the resulting callable invoked from another thread's loop"),
+    # ---- round 3 (each agent was told both earlier changes for its property)
+    "C02c-parse-except-narrowed": ("C02", "data_received catches `ParsingError` instead of `Exception` around unstuff/parse: the AssertionError of the only DATA length check escapes",
+        "a CRC-valid DATA frame with a data field of 257 bytes or more (within the buffer bound): data_received raises, no NAK, later frames of the read stay buffered"),
+    "C03c-dispatch-on-type-bits": ("C03", "parse_frame dispatches on the top three bits and looks RST/RSTACK/ERROR up by the low five bits: 0xE0/0xE1/0xE2 are accepted as RST/RSTACK/ERROR",
+        "a frame with a correct CRC whose control byte is 0xE0 (no data) or 0xE1/0xE2 with data field `02 code`"),
+    "C04c-error-deduplicated": ("C04", "error_frame_received returns early while a reset code is stored: later ERROR frames are not reported",
+        "two ERROR frames with no RSTACK/RST between them (codes may differ)"),
+    "C05c-nak-exhaustion-not-failed": ("C05", "the NAK branch of _send_data_frame no longer enters the failed state on the last attempt",
+        "the peer's reaction to the fifth (last permitted) attempt is a NAK: nobody is told, queued sends go on, DATA frames are written without an RSTACK"),
+    "C06c-timeout-from-queue-entry": ("C06", "asyncio_timeout(EZSP_CMD_TIMEOUT) wrapped around the semaphore and the exchange: the clock starts when the caller joins the queue",
+        "concurrent callers whose queue wait plus response latency exceeds the command timeout: queued callers time out without having sent anything"),
+    "C07c-keyword-order-serialised": ("C07", "serialize_dict walks the bound parameters in the caller's order after a set-equality check of the keys",
+        "a command with two or more arguments called with keywords in an order different from the declared one"),
+    "C08c-overflow-flag-peek": ("C08", "EZSP.frame_received reads data[1] (overflow flag) outside the try block",
+        "a frame of exactly one byte: IndexError escapes the receive entry point"),
+    "C09c-confirm-with-handler-version": ("C09", "EZSP.version() confirms with desiredProtocolVersion = handler VERSION instead of the version the NCP reported",
+        "an NCP reporting a version newer than the newest table (15+): the confirming query asks for 14 and the configuration write is refused"),
+    "C10c-gateway-transport-cleared": ("C10", "Gateway.connection_lost sets self._transport = None; EZSP.enter_failed_state then fails in Gateway.close() before the application callback",
+        "connection_lost(exc) or EOF with an application callback registered, on the real EZSP + Gateway + AshProtocol stack"),
+    "C11c-clean-close-swallowed": ("C11", "AshProtocol.connection_lost returns early for exc=None after close(): Gateway.connection_lost is never reached",
+        "a reset / start-up waiter pending while the host closes the port through EZSP.close() (e.g. an ERROR frame or non-software RSTACK with an application registered): the waiter times out instead of getting the connection error"),
+    "C12c-v14-tag-one-byte": ("C12", "v14 messageSentHandler table: message_tag declared uint8_t instead of uint16_t",
+        "protocol version 14 and a confirmation frame whose 16-bit tag differs from a pending request's only in the upper byte"),
+    "C13c-v14-reserved-sender-dropped": ("C13", "the v14 branch of ezsp_callback_handler ignores incoming messages whose sender is a reserved short address",
+        "protocol version 14, sender 0xFFFC / 0xFFFD / 0xFFFF, a deliverable message type"),
+    "C14c-eui64-read-before-reset": ("C14", "write_network_info reads getEui64 before reset_network_info (which clears the custom EUI64 token and reboots)",
+        "an adapter with the rewritable token already holding custom address X (an earlier restore) and a backup whose node address is X again"),
+    "C15c-invalid-index-leaks-slot": ("C15", "subscribe does not return the popped index to the free set when the rejection status is INVALID_INDEX / INDEX_OUT_OF_RANGE",
+        "a subscribe of a new group whose table write is rejected with exactly that status"),
+    "C16c-disabled-refilled-by-schema": ("C16", "disabled (None) settings are split off before schema validation: the schema fills its default in and the override loop writes it",
+        "protocol version 7+, the user disables CONFIG_END_DEVICE_POLL_TIMEOUT (or CONFIG_KEY_TABLE_SIZE on v7)"),
+    "C17c-shared-listener-list": ("C17", "_stack_status_listeners = dict.fromkeys((NETWORK_UP, NETWORK_DOWN), []): both keys share one list",
+        "the opposite network transition event arriving between the command and the matching event"),
+    "C18c-flat-table-255": ("C18", "per-family flat lookup lists built with range(0xFF): 255 entries",
+        "status byte 0xFF of either 8-bit family: IndexError"),
+    "C19c-count-cleared-on-raise": ("C19", "the failure count is zeroed when the feed raises",
+        "six or more consecutive failures with the feed called again after it raised once: failures 6..9 are tolerated"),
+    "C20c-batched-drain": ("C20", "plain calls are queued in a deque drained by one scheduled callback without try/finally",
+        "a burst of plain calls from another thread in which a call that is not the last raises: the rest of the burst and all later plain calls never run"),
 }
 
 # checks run against each change besides the one of the property it breaks
@@ -95,6 +134,8 @@ ALSO = {
     "C01b-timeouts-counted-separately": ["C05"], "C02b-escape-run-collapses": ["C03"], "C03b-randomize-first-128": ["C02"],
     "C04b-rstack-keeps-counters": ["C11"], "C05b-ack-window-no-wrap": ["C01"], "C09b-reset-future-done-unchecked": ["C10", "C11"],
     "C10b-failed-state-dedup": ["C05"], "C11b-counters-zeroed-at-request": ["C04"],
+    "C03c-dispatch-on-type-bits": ["C02"], "C04c-error-deduplicated": ["C05"], "C10c-gateway-transport-cleared": ["C11"],
+    "C11c-clean-close-swallowed": ["C10"], "C12c-v14-tag-one-byte": ["C07"],
 }
 
 
